@@ -241,12 +241,15 @@ func properPrefix(h string) string {
 
 func corsConfigs() []corsCfg {
 	var out []corsCfg
-	origins := map[string][]string{"none": nil, "any": {"*"}, "one": {"https://a.example"}, "several": {"https://a.example", "https://b.example", "null"}, "any+others": {"https://a.example", "*"}}
+	origins := map[string][]string{"none": nil, "any": {"*"}, "one": {"https://a.example"}, "several": {"https://a.example", "https://b.example", "null"}, "any+others": {"https://a.example", "*"},
+		// an entry that merely contains an asterisk is an ordinary entry (there are no origin patterns): only the element "*" means any
+		"asterisk-inside": {"https://*.example.com", "https://a.example"}}
 	headers := map[string][]string{"none": nil, "any": {"*"}, "list": {"Content-Type", "X-Token"},
-		"mixed-case-list": {"X-Token-Id", "authorization", "Content-Type", "x-lower"}}
+		"mixed-case-list": {"X-Token-Id", "authorization", "Content-Type", "x-lower"},
+		"asterisk-inside": {"X-Client-*", "Content-Type", "X-Token"}}
 	exposed := map[string][]string{"none": nil, "list": {"X-Exp", "X-Other"}}
-	for _, on := range []string{"none", "any", "one", "several", "any+others"} {
-		for _, hn := range []string{"none", "any", "list", "mixed-case-list"} {
+	for _, on := range []string{"none", "any", "one", "several", "any+others", "asterisk-inside"} {
+		for _, hn := range []string{"none", "any", "list", "mixed-case-list", "asterisk-inside"} {
 			for _, en := range []string{"none", "list"} {
 				for _, ma := range []int{0, -1, 3600} {
 					for _, cr := range []bool{false, true} {
@@ -819,7 +822,7 @@ func init() {
 		}
 		return n * 8
 	}
-	rule := "the class product is enumerated completely: " + fmt.Sprint(n) + " configuration classes (origins none/any/one/several/any+others x allowed headers none/any/list/mixed-case unsorted list x exposed x max-age 0/-1/n x credentials, minus the rejected '*'+credentials) x 16632 request classes (6 methods x 3 paths x 7 origin classes (absent, listed, unlisted, other case, null, *, the origin of a sibling router that shares the caller's origin array) x 11 Access-Control-Request-Method classes (absent, served, unserved, lower case, fragment, joined list, unknown, the automatically served HEAD and OPTIONS, and TRACE which is not served without WithTrace) x 12 Access-Control-Request-Headers classes derived from the configured list: as configured, lower/upper case, spaced lists, one disallowed, proper prefix / extension of an allowed name, empty element, forty entries all allowed / all but the last, an allowed name with one non-letter byte flipped in bit 0x20); first pass canonical strings, further passes random instantiations; " +
+	rule := "the class product is enumerated completely: " + fmt.Sprint(n) + " configuration classes (origins none/any/one/several/any+others/an entry with an asterisk inside x allowed headers none/any/list/mixed-case unsorted list/a name with an asterisk inside x exposed x max-age 0/-1/n x credentials, minus the rejected '*'+credentials) x 16632 request classes (6 methods x 3 paths x 7 origin classes (absent, listed, unlisted, other case, null, *, the origin of a sibling router that shares the caller's origin array) x 11 Access-Control-Request-Method classes (absent, served, unserved, lower case, fragment, joined list, unknown, the automatically served HEAD and OPTIONS, and TRACE which is not served without WithTrace) x 12 Access-Control-Request-Headers classes derived from the configured list: as configured, lower/upper case, spaced lists, one disallowed, proper prefix / extension of an allowed name, empty element, forty entries all allowed / all but the last, an allowed name with one non-letter byte flipped in bit 0x20); first pass canonical strings, further passes random instantiations; " +
 		"non-trivial (distinct) = every (configuration class, request class, concrete strings) triple"
 	Register(&Engine{
 		ID: "C11", Cases: cases, Anchors: []string{"options.go:cors.handle", "options.go:cors.headerIsAllowed", "options.go:cors.sanitize"}, Run: func(c *Ctx) { runCORS(c, "C11") }, Directed: corsDirected("C11"), Rule: rule, Exhaustive: true,
